@@ -13,6 +13,7 @@ CONTRACT_MODULES = [
     'contracts.logger',
     'contracts.schema',
     'contracts.schemaless',
+    'contracts.validator',
 ]
 
 CFG = 'cfgparser.ZConfigParser.'
@@ -81,7 +82,8 @@ PROPS = {
                           'loader.BaseLoader.normalizeURL', 'loader.BaseLoader.openResource'],
             'standin': True},
     'C07': {'functions': CFG_ALL + ['substitution.substitute', 'substitution._split', 'info.ValueInfo.convert'] + CMDLINE + LOADER_CFG +
-            ['loader.BaseLoader.openResource', 'loader.BaseLoader.loadURL', 'loader.BaseLoader.loadFile', 'loader.BaseLoader._raise_open_error'],
+            ['loader.BaseLoader.openResource', 'loader.BaseLoader.loadURL', 'loader.BaseLoader.loadFile', 'loader.BaseLoader._raise_open_error',
+             'validator.main'],
             'standin': True},
     'C08': {'functions': [CFG + n for n in ('error', 'replace', 'handle_key_value', 'handle_define',
                                             'start_section', 'end_section', 'nextline')]
